@@ -18,7 +18,7 @@ def main():
     for pid in ids:
         p = os.path.join(VERIF, "props", pid + ".py")
         meta = None
-        if os.path.exists(p):
+        if os.path.exists(p) and os.path.exists(os.path.join(VERIF, "ledger", pid + ".json")):
             src = open(p).read()
             if "MANIFEST = " in src or "MANIFEST=" in src:
                 ns = {}
